@@ -262,6 +262,17 @@ def search(text, doc, limit=200):
     mm = spec.mm
     for d in crate.dups:
         add(d, "", "two items with this name")
+    # ---- serde attributes that change the wire form and are outside the modelled subset (flatten, alias, tag, default, ...)
+    for name, it in crate.items.items():
+        for m in re.finditer(r'serde\s*\(((?:[^)"]|"(?:[^"\\]|\\.)*")*)\)', it["text"]):
+            for arg in split_top(m.group(1)):
+                key = arg.split("=")[0].strip()
+                if key not in ("rename", "rename_all", "deny_unknown_fields", "untagged", "skip_serializing_if") or \
+                        (key == "rename_all" and not re.search(r'=\s*"camelCase"', arg)):
+                    after = it["text"][m.end():]
+                    fm = re.match(r'\s*\]\s*(?:#\[[^\]]*\]\s*)*(?:pub(?:\([^)]*\))?\s+)?(\w+)\s*[:(,=]', after)
+                    fld = fm.group(1) if fm and fm.group(1) not in ("pub", "struct", "enum") else ""
+                    add(name, fld, "serde attribute outside the modelled subset changes how this item is (de)serialized", None, "serde(%s)" % arg)
     # ---- structures
     for sn, st in mm.S.items():
         it = crate.items.get(sn)
